@@ -206,7 +206,10 @@ def register(PROPS):
     PROPS["C11"] = {
         "generated_layer": True,
         "gens": [{"id": "C11", "quick": 30000, "thorough": 800000, "thorough_seeds": 12},
-                 {"id": "C01", "quick": 15000, "thorough": 300000, "thorough_seeds": 6}],
+                 {"id": "C01", "quick": 15000, "thorough": 300000, "thorough_seeds": 6},
+                 # "retried according to the backoff policy … the last error when retries are exhausted": the controller that
+                 # decides whether there is a next retry (CTRL, with MaxRetries / MaxElapsedTime set), as in C12
+                 {"id": "C12", "quick": 6000, "thorough": 100000, "thorough_seeds": 4}],
         "compare": cmp_client,
         "shrink_candidates": shrink_client,
         "corpus_also": ["C10", "C01"],
